@@ -55,8 +55,9 @@ pub fn self_check() {
     assert_eq!(encode(&[vec![], vec![], vec![0]]).unwrap(), ";;B");
     assert_eq!(encode(&[vec![], vec![]]), None);
     assert_eq!(decode("AAB;;g").unwrap(), vec![vec![12], vec![], vec![5]]);
-    for a in 0..40usize {
-        for b in a..40usize {
+    let lim = if cfg!(miri) { 8usize } else { 40 };
+    for a in 0..lim {
+        for b in a..lim {
             let f = vec![vec![a, b], vec![], vec![b]];
             let mut want = f.clone();
             want[0].dedup();
